@@ -104,6 +104,9 @@ func (s *ModelServer) ListModes(_ context.Context, request *traits.ListModesRequ
 	}
 
 	lastKey := pageToken.GetLastResourceName() // the key() of the last item we sent
+	if err := validatePageSize(request.GetPageSize()); err != nil {
+		return nil, err
+	}
 	pageSize := capPageSize(int(request.GetPageSize()))
 
 	sortedModes := s.model.Modes(resource.WithReadMask(request.ReadMask))
